@@ -88,9 +88,6 @@ func genHistLateSCION(r *lib.Rng, auth, nts bool) histSpec {
 			s := genScriptSCION(r, nts)
 			if s[0].kind < 2 {
 				s[0] = recipe{kind: 30 + r.Intn(7), p1: int64(r.Intn(2)), p2: int64(r.Intn(1 << 16))}
-				if s[0].kind == 34 {
-					s[0].kind = 33
-				}
 			}
 			op.scripts = [][]recipe{append(s, recipe{kind: 0})}
 		}
